@@ -13,8 +13,9 @@ from ..oracles import ebnf
 ID = 'C06'
 LEVEL = 'exploration'
 RULE = ('(a) bounded-exhaustive derivations: every rule reachable from file_input/eval_input in a cheapest context with every form of its '
-        'right-hand side (alternatives, optional parts, 0/1/2 repetitions; capped per rule) and, one level down, each nonterminal child '
-        'replaced in turn by forms of its own; (b) random derivations (token budgets 4-250, <= 400 tokens) from file_input and eval_input of every shipped grammar, '
+        'right-hand side (alternatives, optional parts, 0/1/2 repetitions; capped per rule), one level down each nonterminal child '
+        'replaced in turn by forms of its own, and at each child position every token that can begin the child (= every plan of the '
+        'parser tables: the run is inconclusive below 95 % of the reachable plans); (b) random derivations (token budgets 4-250, <= 400 tokens) from file_input and eval_input of every shipped grammar, '
         'alternatives chosen with a bias towards not-yet-used (rule, alternative) pairs; each is run (i) in token mode: the token '
         'tuples fed into the real Parser.parse, strict and recovering; (ii) in text mode: rendered with random spellings/'
         'spacing/comments/blank lines/continuations through Grammar.parse(error_recovery=False[, start_symbol]) and with '
@@ -104,10 +105,10 @@ class Gen:
         return self.nullable(a[1])
 
     def first(self, a, _stack=()):
-        key = id(a)
+        k = a[0]
+        key = ('sym', a[1]) if k == 'sym' else id(a)      # symbol nodes may be temporaries: never key them by id
         if key in self._first:
             return self._first[key]
-        k = a[0]
         if k == 'sym':
             if a[1] in self.rules:
                 if a[1] in _stack:
@@ -441,8 +442,9 @@ class Systematic:
     (rotating, so that over the forms of the parent all forms of the child are used).  Everything else is expanded in
     the cheapest way, so the derivations are small and the combination under test is what the parser sees."""
 
-    def __init__(self, G, rng, cap=120, sub=2):
-        self.G, self.rng, self.cap, self.sub = G, rng, cap, sub
+    def __init__(self, G, rng, cap=120, sub=2, firsts=True):
+        self.G, self.rng, self.cap, self.sub, self.firsts = G, rng, cap, sub, firsts
+        self._seen_first = set()
         self.rules = G.rules
         self._forms = {}
         self._min = {}
@@ -541,6 +543,21 @@ class Systematic:
                     cf = self.forms(x)
                     if len(cf) < 2:
                         continue
+                    if self.firsts:
+                        # each token that can begin this child, at this place of this form (= one plan of the parser tables)
+                        sym = ('sym', x)
+                        for t in sorted(self.G.first(sym)):
+                            key = (rule, tuple(f[:i]), x, t)
+                            if key in self._seen_first:
+                                continue
+                            self._seen_first.add(key)
+                            try:
+                                sub = self.G._exp_first(sym, t, self.G.cost[x], rule)[0]
+                            except Exception:
+                                continue
+                            k2 = list(kids)
+                            k2[i] = sub
+                            yield rule, 'form+first_token', self.embed(rule, ('node', rule, k2))
                     for _ in range(self.sub):
                         r = self._rot[x] = (self._rot.get(x, 0) + 1) % len(cf)
                         sub = ('node', x, [self.minimal(y) if y in self.rules else ('tok', y) for y in cf[r]])
@@ -718,21 +735,21 @@ def replay(w, ctx):
 
 
 def shards(tier, seed):
-    n = 600 if tier == 'quick' else 40000
+    n = 200 if tier == 'quick' else 12000
     out = []
     for v in harness.VERSIONS:
         for k in range(1 if tier == 'quick' else 4):
-            out.append({'kind': 'derive', 'version': v, 'n': n, 'budget_s': 70 if tier == 'quick' else 1500})
-        parts = 1 if tier == 'quick' else 3
+            out.append({'kind': 'derive', 'version': v, 'n': n, 'budget_s': 45 if tier == 'quick' else 1500})
+        parts = 2 if tier == 'quick' else 3
         for k in range(parts):
-            out.append({'kind': 'systematic', 'version': v, 'n': 0, 'part': k, 'parts': parts, 'cap': 400 if tier == 'quick' else 2500,
-                        'sub': 4 if tier == 'quick' else 12, 'budget_s': 80 if tier == 'quick' else 3000})
+            out.append({'kind': 'systematic', 'version': v, 'n': 0, 'part': k, 'parts': parts, 'cap': 250 if tier == 'quick' else 2500,
+                        'sub': 1 if tier == 'quick' else 12, 'budget_s': 150 if tier == 'quick' else 3000})
     return out
 
 
 def floors(tier):
-    return {'evaluations': 3000, 'token_mode_parses': 5000, 'text_mode_parses': 1000, 'min_plan_coverage_percent': 40,
-            'systematic_derivations': 60000}
+    return {'evaluations': 3000, 'token_mode_parses': 5000, 'text_mode_parses': 1000, 'min_plan_coverage_percent': 95,
+            'systematic_derivations': 40000}
 
 
 def post_merge(m, tier):
